@@ -79,6 +79,8 @@ struct ChildSt {
     err: Cell<bool>,
     wake_on_ready: Cell<bool>,
     up_err: Cell<bool>,
+    /// global sequence number of the poll in which this child answered Ready (0 = not yet)
+    done_seq: Cell<usize>,
 }
 type St = Rc<ChildSt>;
 
@@ -131,6 +133,7 @@ impl Future for Fut {
                 cx.waker().wake_by_ref();
             }
             st.done.set(true);
+            if st.done_seq.get() == 0 { st.done_seq.set(DONE_SEQ.fetch_add(1, Ordering::Relaxed) + 1); }
             Poll::Ready(Out { id: self.id, st: st.clone() })
         } else {
             *st.waker.borrow_mut() = Some(cx.waker().clone());
@@ -273,6 +276,15 @@ fn report(f: &Fail) -> ! {
     std::process::exit(1)
 }
 
+
+/// an iterator whose size_hint is honest but loose: lower bound 0, upper bound over-estimating by `extra`
+struct Loose<I>(I, usize);
+impl<I: Iterator> Iterator for Loose<I> {
+    type Item = I::Item;
+    fn next(&mut self) -> Option<I::Item> { self.0.next() }
+    fn size_hint(&self) -> (usize, Option<usize>) { let (_, hi) = self.0.size_hint(); (0, hi.map(|h| h + self.1)) }
+}
+static DONE_SEQ: AtomicUsize = AtomicUsize::new(0);
 
 // ------------------------------------------------------------------------------------------------ per-history guard
 /// Thrown by `fail` when an oracle of ANOTHER property fires: the run is corrupted from here on (outputs duplicated,
@@ -422,7 +434,7 @@ fn collections_history(prop: &'static str, rng: &mut Rng, it: usize, skip_refuse
             }
             pushes += collected;
             hist.push(format!("collect({collected} futures through .filter(): inexact size hint)"));
-            let it = futs.into_iter().filter(|_| true);
+            let it = Loose(futs.into_iter(), collected % 3);
             match kind {
                 0 => { cap = collected; Coll::Fub(it.collect()) }
                 1 => Coll::Fu(it.collect()),
@@ -432,9 +444,10 @@ fn collections_history(prop: &'static str, rng: &mut Rng, it: usize, skip_refuse
         } else {
             match kind {
                 0 => Coll::Fub(FuturesUnorderedBounded::new(cap)),
-                1 => Coll::Fu(FuturesUnordered::with_capacity(cap)),
+                // the unbounded collections also start from capacity 0 (every third history)
+                1 => { if it % 3 == 0 { cap = 0; } Coll::Fu(FuturesUnordered::with_capacity(cap)) }
                 2 => Coll::Fob(FuturesOrderedBounded::new(cap)),
-                _ => Coll::Fo(FuturesOrdered::with_capacity(cap)),
+                _ => { if it % 3 == 0 { cap = 0; } Coll::Fo(FuturesOrdered::with_capacity(cap)) }
             }
         };
         if it % 50 == 0 {
@@ -814,6 +827,58 @@ fn run_budget(prop: &'static str) {
         }
     }
 }
+/// C14: children that wake themselves in the very poll in which they complete leave stale entries in the ready queue; with
+/// one sleeping child left and nobody waking anybody, a quiet Pending (task waker not invoked) must be reached within
+/// held + 2 polls.
+fn run_quiescence(prop: &'static str) {
+    if prop != "C14" {
+        return;
+    }
+    for kind in 0..4usize {
+        for k in 1..=6usize {
+            let mut coll = match kind {
+                0 => Coll::Fub(FuturesUnorderedBounded::new(8)),
+                1 => Coll::Fu(FuturesUnordered::new()),
+                2 => Coll::Fob(FuturesOrderedBounded::new(8)),
+                _ => Coll::Fo(FuturesOrdered::new()),
+            };
+            let scenario = format!("{}: {k} futures that invoke their own waker while completing, then 1 sleeping future", coll.name());
+            let tw = Arc::new(CountWaker(AtomicUsize::new(0)));
+            let waker = Waker::from(tw.clone());
+            let mut cx = Context::from_waker(&waker);
+            let mut hist = vec![];
+            for id in 0..k {
+                let st: St = Rc::new(ChildSt::default());
+                st.ready.set(true);
+                st.wake_on_ready.set(true);
+                if coll.push_back(Fut::new(id, st)).is_err() { return; }
+            }
+            let sleeper: St = Rc::new(ChildSt::default());
+            if coll.push_back(Fut::new(k, sleeper.clone())).is_err() { return; }
+            hist.push(format!("push x{k} (ready, self-waking on completion), push sleeper"));
+            let mut got = 0;
+            let mut guard = 0;
+            while got < k && guard < 4 * k + 8 {
+                guard += 1;
+                if let Poll::Ready(Some(_)) = coll.poll(&mut cx) { got += 1; }
+            }
+            hist.push(format!("poll until {got} outputs are out"));
+            let mut quiet = false;
+            let mut noisy = 0;
+            for _ in 0..3 {
+                let before = tw.0.load(Ordering::SeqCst);
+                let r = coll.poll(&mut cx);
+                let woke = tw.0.load(Ordering::SeqCst) > before;
+                hist.push(format!("poll -> {} (task woken: {woke})", if r.is_pending() { "Pending" } else { "Ready" }));
+                if r.is_pending() && !woke { quiet = true; break; }
+                noisy += 1;
+            }
+            if got == k && !quiet {
+                report(&Fail { prop, scenario, history: hist, what: format!("{noisy} polls in a row woke the task although the only held future sleeps and nobody invoked a waker (bound: held + 2 = 3 polls)") });
+            }
+        }
+    }
+}
 fn run_adapters(prop: &'static str, seed: u64, iters: usize) {
     let mut rng = Rng(seed.wrapping_mul(0xD1B54A32D192ED03) | 1);
     for it in 0..iters {
@@ -834,7 +899,7 @@ fn run_adapters(prop: &'static str, seed: u64, iters: usize) {
         }
         script.push(Up::End);
         let err_mask: u64 = if rng.below(3) == 0 { rng.next() & rng.next() } else { 0 };
-        let ready_mask: u64 = if burst { u64::MAX } else if rng.below(2) == 0 { rng.next() } else { 0 };
+        let ready_mask: u64 = if burst { if rng.below(2) == 0 { u64::MAX } else { 0 } } else if rng.below(2) == 0 { rng.next() } else { 0 };
         let init = move |id: usize, c: &St| {
             if (err_mask >> (id % 64)) & 1 == 1 { c.err.set(true); }
             if (ready_mask >> (id % 64)) & 1 == 1 { c.ready.set(true); }
@@ -1052,6 +1117,7 @@ fn run_join(prop: &'static str, seed: u64, iters: usize) {
         guarded(prop, &["C07"], "run_join", 0, || {
         let n = rng.below(5);
         let try_variant = rng.below(2) == 0;
+        let loose = if rng.below(3) == 0 { 1 + rng.below(3) } else { 0 };
         let scenario = format!("{}(n={n})", if try_variant { "try_join_all" } else { "join_all" });
         let tw = Arc::new(CountWaker(AtomicUsize::new(0)));
         let waker = Waker::from(tw.clone());
@@ -1073,10 +1139,11 @@ fn run_join(prop: &'static str, seed: u64, iters: usize) {
             B(Pin<Box<TryJoinAll<TFut>>>),
         }
         let mut j = if try_variant {
-            J::B(Box::pin(try_join_all(children.iter().enumerate().map(|(i, c)| TFut(Fut::new(i, c.clone()))).collect::<Vec<_>>())))
+            J::B(Box::pin(try_join_all(Loose(children.iter().enumerate().map(|(i, c)| TFut(Fut::new(i, c.clone()))).collect::<Vec<_>>().into_iter(), loose))))
         } else {
-            J::A(Box::pin(join_all(children.iter().enumerate().map(|(i, c)| Fut::new(i, c.clone())).collect::<Vec<_>>())))
+            J::A(Box::pin(join_all(Loose(children.iter().enumerate().map(|(i, c)| Fut::new(i, c.clone())).collect::<Vec<_>>().into_iter(), loose))))
         };
+        if loose > 0 { hist.push(format!("(inputs come from an iterator whose size_hint is (0, Some({})))", n + loose)); }
         let allocs0 = ALLOCS.load(Ordering::Relaxed);
         let mut results_after_ready = 0;
         for _ in 0..(3 * n + 4) {
@@ -1120,6 +1187,12 @@ fn run_join(prop: &'static str, seed: u64, iters: usize) {
                             results_after_ready += 1;
                             if !(e < n && children[e].err.get() && children[e].done.get()) {
                                 fail(&["C07"], &hist, format!("Err({e}) is not the error of a failed input"));
+                            }
+                            if results_after_ready == 1 {
+                                let first = children.iter().enumerate().filter(|(_, c)| c.err.get() && c.done.get()).min_by_key(|(_, c)| c.done_seq.get()).map(|(i, _)| i);
+                                if first != Some(e) {
+                                    fail(&["C07"], &hist, format!("Err({e}) reported, but input {first:?} was the first input observed to fail"));
+                                }
                             }
                         }
                         Poll::Pending => {
@@ -1349,20 +1422,36 @@ fn run_merge(prop: &'static str, seed: u64, iters: usize) {
             B(MergeBounded<Src>),
             U(MergeUnbounded<Src>),
         }
+        // some sources of an unbounded merge are pushed later, while the merge is already being consumed (also: all of them,
+        // i.e. the merge starts empty - from new() or from collect() over nothing)
+        let late = if unbounded && rng.below(2) == 0 { rng.below(srcs.len() + 1) } else { 0 };
+        let mut late_srcs: VecDeque<Src> = srcs.split_off(srcs.len() - late).into();
+        let mut pushed = vec![true; nsrc];
+        for k in (nsrc - late)..nsrc { pushed[k] = false; }
+        if late > 0 { hist.push(format!("sources {}..{nsrc} are pushed later", nsrc - late)); }
         let mut m = if unbounded {
-            if grouped || rng.below(2) == 0 { let mut mu = MergeUnbounded::new(); for s in srcs { mu.push(s); } M::U(mu) } else { M::U(srcs.into_iter().collect()) }
+            if grouped || rng.below(2) == 0 { let mut mu = MergeUnbounded::new(); for s in srcs { mu.push(s); } M::U(mu) } else { hist.push("(built by collect())".into()); M::U(srcs.into_iter().collect()) }
         } else { M::B(srcs.into_iter().collect()) };
+        let mut wakes = vec![0usize; nsrc];
         let tw = Arc::new(CountWaker(AtomicUsize::new(0)));
         let waker = Waker::from(tw.clone());
         let mut cx = Context::from_waker(&waker);
         let mut next_seq = vec![0usize; nsrc];
         let mut done = false;
         for _ in 0..(60 + 3 * nsrc) {
-            if rng.below(3) == 0 {
+            if !late_srcs.is_empty() && rng.below(4) == 0 {
+                let k = nsrc - late_srcs.len();
+                if let M::U(mu) = &mut m { mu.push(late_srcs.pop_front().unwrap()); }
+                pushed[k] = true;
+                hist.push(format!("push(source {k})"));
+                continue;
+            }
+            if rng.below(3) == 0 && nsrc > 0 {
                 let i = rng.below(nsrc);
                 if let Some(w) = sts[i].waker.borrow().as_ref() {
                     w.wake_by_ref();
                     sts[i].fresh.set(true);
+                    wakes[i] += 1;
                 }
                 hist.push(format!("wake({i})"));
                 continue;
@@ -1382,29 +1471,41 @@ fn run_merge(prop: &'static str, seed: u64, iters: usize) {
                 }
                 Poll::Ready(None) => {
                     hist.push("poll -> None".into());
-                    if sts.iter().any(|s| !s.ended.get()) {
+                    if sts.iter().enumerate().any(|(i, s)| pushed[i] && !s.ended.get()) {
                         fail(&["C11"], &hist, "None although a source has not ended".into());
+                    }
+                    if !late_srcs.is_empty() {
+                        continue;
                     }
                     done = true;
                     break;
                 }
                 Poll::Pending => {
                     hist.push("poll -> Pending".into());
-                    if sts.iter().all(|s| s.ended.get()) {
+                    if sts.iter().enumerate().all(|(i, s)| !pushed[i] || s.ended.get()) {
                         fail(&["C11"], &hist, "Pending although every source has ended".into());
                     }
                     if tw.0.load(Ordering::SeqCst) == before {
-                        let missed: Vec<usize> = sts.iter().enumerate().filter(|(_, s)| !s.ended.get() && s.fresh.get()).map(|(i, _)| i).collect();
+                        let missed: Vec<usize> = sts.iter().enumerate().filter(|(i, s)| pushed[*i] && !s.ended.get() && s.fresh.get()).map(|(i, _)| i).collect();
                         if !missed.is_empty() {
                             fail(&["C01","C11"], &hist, format!("Pending with sources {:?} pushed/woken but not polled and the task waker not invoked", &missed[..missed.len().min(8)]));
                         }
                     }
                 }
             }
+            {
+                // C12, accounted globally: a stale waker of an ended source may legitimately pay for a poll of the slot's next occupant
+                let polls: usize = sts.iter().map(|s| s.polls.get()).sum();
+                let paid: usize = pushed.iter().filter(|p| **p).count() + wakes.iter().sum::<usize>() + next_seq.iter().sum::<usize>();
+                if polls > paid {
+                    fail(&["C12"], &hist, format!("{polls} source polls, but only {paid} are paid for ({} pushes + {} waker invocations + {} items yielded)", pushed.iter().filter(|p| **p).count(), wakes.iter().sum::<usize>(), next_seq.iter().sum::<usize>()));
+                }
+            }
             for (i, s) in sts.iter().enumerate() {
                 if s.polled_after_end.get() {
                     fail(&["C05","C11"], &hist, format!("source {i} polled again after it returned None"));
                 }
+
                 if s.moved.get() {
                     fail(&["C08"], &hist, format!("source stream {i} observed at two different addresses"));
                 }
@@ -1418,6 +1519,7 @@ fn run_merge(prop: &'static str, seed: u64, iters: usize) {
         }
         let _ = done;
         drop(m);
+        drop(late_srcs);
         for (i, s) in sts.iter().enumerate() {
             if s.dropped.get() != 1 {
                 fail(&["C06"], &hist, format!("source {i} dropped {} times", s.dropped.get()));
@@ -1706,8 +1808,13 @@ fn main() {
         "C12" => {
             run_budget(prop);
             run_collections(prop, seed, iters);
+            run_merge(prop, seed, iters / 2);
         }
-        "C02" | "C14" | "C15" => run_collections(prop, seed, iters),
+        "C14" => {
+            run_quiescence(prop);
+            run_collections(prop, seed, iters);
+        }
+        "C02" | "C15" => run_collections(prop, seed, iters),
         "C05" => {
             run_collections(prop, seed, iters);
             run_merge(prop, seed, iters / 2);
@@ -1719,7 +1826,11 @@ fn main() {
             run_adapters(prop, seed, iters / 2);
             run_join(prop, seed, iters / 2);
         }
-        "C09" | "C16" | "C17" => run_adapters(prop, seed, iters),
+        "C09" | "C16" => run_adapters(prop, seed, iters),
+        "C17" => {
+            run_adapters(prop, seed, iters);
+            run_collections(prop, seed, iters / 2);
+        }
         "C10" => {
             if known {
                 run_foreach_zero(prop);
